@@ -229,3 +229,8 @@ Theorem C12_arms_are_fieldless_in_order : forall paren t vs tbl,
   eval_consts t (consts paren vs) = Some tbl -> map fst tbl = filter fieldless vs.
 Proof. exact Proofs.arms_are_fieldless_in_order. Qed.
 Print Assumptions C12_arms_are_fieldless_in_order.
+
+Theorem C12_ok_is_member : forall paren t vs f n v,
+  try_from paren t vs = Some f -> f n = Ok v -> In v vs /\ fieldless v = true.
+Proof. exact Proofs.ok_is_member. Qed.
+Print Assumptions C12_ok_is_member.
